@@ -746,12 +746,15 @@ def trees_equal(a, b):
     return a == b
 
 
-def history(k1: int, k2: int, A: str, B: str, C: str, P: str, rg: bool) -> bool:
+def history(k1: int, k2: int, A: str, P: str, rg: bool) -> bool:
     """
     pre: 0 <= k1 < len(skeletons.PRESERVE_TEMPLATES)
     pre: 0 <= k2 < len(skeletons.TEMPLATES)
     post: _
     """
+    # two calls sharing the caller's list objects; hole A and the preserved name P are symbolic, the other holes concrete
+    B = 'bbb'
+    C = 'ccc'
     import inspect
     import python_minifier
     lg = [P]
